@@ -203,7 +203,11 @@ def write_overlay(extra=None):
     # without touching /repo, e.g. VERIF_MUTANT_OVERLAY='{"/repo/pkg/x/y.go": "/tmp/mut/y.go"}'
     if os.environ.get("VERIF_MUTANT_OVERLAY"):
         ov.update(json.loads(os.environ["VERIF_MUTANT_OVERLAY"]))
-    path = os.path.join(ROOT, "harness", "overlay-mut.json" if MUTANT else "overlay.json")
+    # mutant runs of different checks may run side by side: one overlay file per process
+    path = os.path.join(ROOT, "harness", ("overlay-mut-%d.json" % os.getpid()) if MUTANT else "overlay.json")
+    if MUTANT:
+        import atexit
+        atexit.register(lambda p=path: os.path.exists(p) and os.remove(p))
     new = json.dumps({"Replace": ov}, indent=1, sort_keys=True)
     if not os.path.exists(path) or open(path).read() != new:
         open(path, "w").write(new)
